@@ -743,6 +743,10 @@ struct hx_reply_s {
 	int http;		/* HTTP status, 0 if none */
 };
 
+/* the next request's client goes away before the daemon answers: the daemon's write fails with EPIPE (the daemon
+ * proper catches SIGPIPE and does nothing; here it is ignored), nothing is collected */
+static int hx_client_gone;
+
 /* send REQ as user U through the daemon's own connection handler, collect the reply */
 static void
 hx_request(struct hx_reply_s *rp, uid_t u, const char *req, size_t len)
@@ -762,6 +766,10 @@ hx_request(struct hx_reply_s *rp, uid_t u, const char *req, size_t len)
 		o += (size_t)w;
 	}
 	shutdown(sv[0], SHUT_WR);
+	if (hx_client_gone) {
+		signal(SIGPIPE, SIG_IGN);
+		syscall(SYS_close, (long)sv[0], 0L, 0L, 0L, 0L, 0L);
+	}
 	c = make_conn();
 	{
 		ncred_t cr = compl_uid(u);
@@ -771,6 +779,10 @@ hx_request(struct hx_reply_s *rp, uid_t u, const char *req, size_t len)
 	/* what the loop does when the socket is readable: once per recv() until the handler shuts it */
 	for (int i = 0; i < 8 && c->r.fd == sv[1] && c->buf != NULL; i++) {
 		sock_data_cb(hx_ctx->loop, &c->r, EV_READ);
+	}
+	if (hx_client_gone) {
+		hx_client_gone = 0;
+		return;
 	}
 	/* drain the reply */
 	for (;;) {
@@ -790,7 +802,7 @@ hx_request(struct hx_reply_s *rp, uid_t u, const char *req, size_t len)
 }
 
 /* ================= observation ================= */
-#define HX_MAXTASKS	40
+#define HX_MAXTASKS	300
 #define HX_MAXOCC	6
 struct hx_task_s {
 	char uid[64];
